@@ -496,7 +496,17 @@ class Check:
             import ops
             raise Infra(f"{skipped} of {skipped + len(self.lines)} lines could not be run: {ops.UNAVAILABLE}")
         self.interpreter_crosscheck()
-        matchers = matchers or {}
+        # a known-finding matcher judges the input of a line; a line that carries process history (`after … ;; L`) is
+        # judged on L
+        import dataclasses
+
+        def _on_last(m):
+            def g(f):
+                if f.line.startswith("after "):
+                    f = dataclasses.replace(f, line=f.line.rsplit(" ;; ", 1)[-1])
+                return m(f)
+            return g
+        matchers = {k: _on_last(m) for k, m in (matchers or {}).items()}
         known = load_known()
         prop_fail = [f for f in self.failures if f.kind == "property"] + self.py_fail
         corr_fail = [f for f in self.failures if f.kind == "correspondence"]
